@@ -156,7 +156,7 @@ pub fn decode(target: &str, data: &[u8]) -> Vec<(&'static str, Value)> {
             let suffix: Vec<u8> = (0..ns).map(|_| r.u8()).collect();
             let raw = raw_facts(&mut r, &cfg);
             let facts = gen::realise(&raw, &cfg);
-            vec![("C08", serde_json::to_value(c08::Case { facts, version, suffix }).unwrap())]
+            vec![("C08", serde_json::to_value(c08::Case { facts, version, suffix, big: false }).unwrap())]
         }
         "facts" => {
             let cfg = GenCfg::small().terms(1, 14).recs(4);
